@@ -88,6 +88,7 @@ def populate(b, per_class=2):
     {holder pk: (reference class, root, pk)}"""
     created, holders = {}, {}
     b.seed_holders = {}
+    b.vals = {}             # (root, pk) -> the value n of all its v<a> attributes
     b.links = {}            # Link pk -> holder pk (for every seed holder): chain Link.h -> Holder.ref<c> -> object
     b.many = {}             # root -> (holder pk, [(pk, class id)]): a many-to-many collection holding the first object of every class of the tree
     seen_cls = set()
@@ -95,7 +96,7 @@ def populate(b, per_class=2):
         objs = []
         for i, c in enumerate(b.classes):
             for n in range(per_class):
-                objs.append((i, c(**{'v%d' % i: n})))
+                objs.append((i, c(**{'v%d' % a: n for a, ca in enumerate(b.classes) if issubclass(c, ca)})))      # own and inherited attributes
         b.orm.flush()
         idx = {c: i for i, c in enumerate(b.classes)}
         for i, o in objs:
@@ -103,6 +104,7 @@ def populate(b, per_class=2):
             h = b.Holder(**{'ref%d' % r: o})
             b.orm.flush()
             created[(r, o.get_pk())] = i
+            b.vals[(r, o.get_pk())] = getattr(o, 'v%d' % i)
             holders[h.get_pk()] = (r, o.get_pk())
             if i not in seen_cls:      # first object of this class
                 seen_cls.add(i)
